@@ -1,6 +1,9 @@
 """C39 configuration layering: Config.tla, G->I into core.ReadDefaultConfigFiles + Configuration.ApplyOverrides."""
 import json
+import os
+import random
 import re
+import shutil
 
 import vlib
 from engines import register
@@ -124,9 +127,112 @@ def _judge(ctx, case, o, defaults, where):
             break
 
 
+_ARCH = None
+
+
+def _e2e_paths(root, base, profile):
+    global _ARCH
+    if _ARCH is None:
+        goos = vlib.sh(["go", "env", "GOOS"], env=vlib.GOENV).stdout.strip().splitlines()[-1]
+        goarch = vlib.sh(["go", "env", "GOARCH"], env=vlib.GOENV).stdout.strip().splitlines()[-1]
+        _ARCH = goos + "_" + goarch
+    p = {"user": os.path.join(root, "home", ".config", "please", "plzconfig"),
+         "repo": os.path.join(root, "repo", ".plzconfig"),
+         "arch": os.path.join(root, "repo", ".plzconfig_" + _ARCH),
+         "local": os.path.join(root, "repo", ".plzconfig.local")}[base]
+    return p + ("." + profile if profile else "")
+
+
+_REP_OPTS = [("build", "path"), ("parse", "buildfilename"), ("parse", "blacklistdirs"), ("please", "pluginrepo"),
+             ("cover", "fileextension")]
+
+
+def _e2e_render(f, str_only):
+    """the same rendering as harness/config.go renderConfig (kept textually parallel)"""
+    sections = {}
+    if f["single"] == "set":
+        sections.setdefault("build", []).append("lang = s%d" % f["id"])
+        if not str_only:
+            sections.setdefault("build", []).append("timeout = %d" % (100 + f["id"]))
+            sections.setdefault("please", []).append("numthreads = %d" % (100 + f["id"]))
+    elif f["single"] == "empty":
+        sections.setdefault("build", []).append("lang =")
+    for j, kind in enumerate(f["rep"]):
+        for sec, key in _REP_OPTS:
+            sections.setdefault(sec, []).append(key if kind == "B" else "%s = /r%d_%d" % (key, f["id"], j + 1))
+    return "".join("[%s]\n%s\n" % (sec, "\n".join(sections[sec])) for sec in ("please", "parse", "build", "cover")
+                   if sec in sections)
+
+
+def _e2e_query(ctx, plz, root, profiles, overrides):
+    cmd = [plz]
+    for p in profiles:
+        cmd += ["--profile", p]
+    for k, v in overrides.items():
+        cmd += ["-o", "%s:%s" % (k, v)]
+    cmd += ["query", "config", "--json"]
+    env = dict(HOME=os.path.join(root, "home"), XDG_CONFIG_HOME="", XDG_CONFIG_DIRS="", HTTP_PROXY="")
+    p = vlib.sh(cmd, cwd=os.path.join(root, "repo"), env=env, check=False, timeout=120, capture=True)
+    out = p.stdout or ""
+    i = out.find("{")
+    if p.returncode != 0 or i < 0:
+        return dict(error="plz query config rc=%d: %s" % (p.returncode, out[-500:]))
+    try:
+        d = json.loads(out[i:])
+    except Exception as ex:
+        return dict(error="undecodable json: %s" % ex)
+    return dict(single=dict(lang=d["build"].get("lang"), timeout=int(d["build"].get("timeout", 0)) // 10**9,
+                            numthreads=d["please"].get("numthreads")),
+                rep={"%s.%s" % (sec, key): list(d[sec].get(key) or []) for sec, key in _REP_OPTS})
+
+
 def _e2e(ctx, cases, e2e_cases):
-    """a sample of the cases through the real plz binary; filled in below"""
-    return
+    """A sample of the cases through the real binary: files written under a scratch HOME and a scratch repository,
+    `plz --profile .. -o .. query config --json` read back. The machine-level file cannot be placed (/etc is never
+    touched), so only cases without it are eligible."""
+    if e2e_cases is None:
+        n = 40 if ctx.quick else 400
+        eligible = [c for c in cases if not any(f["base"] == "machine" for f in c["files"])
+                    and len(c["files"]) + (c["override"]["single"] != "absent") + (c["override"]["rep"] > 0) >= 2]
+        random.Random(ctx.seed).shuffle(eligible)
+        e2e_cases = eligible[:n]
+    if not e2e_cases:
+        return
+    plz = vlib.build_plz()
+    root = os.path.join(ctx.scratch, "e2e-c39")
+
+    def fresh():
+        shutil.rmtree(root, ignore_errors=True)
+        os.makedirs(os.path.join(root, "home", ".config", "please"))
+        os.makedirs(os.path.join(root, "repo"))
+        open(os.path.join(root, "repo", ".plzconfig"), "w").close()   # marks the repo root; says nothing
+    fresh()
+    defaults = _e2e_query(ctx, plz, root, ["p1"], {})
+    if "error" in defaults:
+        raise vlib.Infra("e2e defaults: %s" % defaults["error"])
+    for c in e2e_cases:
+        fresh()
+        str_only = c["override"]["single"] == "empty" or any(f["single"] == "empty" for f in c["files"])
+        for f in c["files"]:
+            with open(_e2e_paths(root, f["base"], f["profile"]), "w") as fh:
+                fh.write(_e2e_render(f, str_only))
+        ov = {}
+        oid = c["override"]["id"]
+        if c["override"]["single"] == "set":
+            ov["build.lang"] = "s%d" % oid
+            if not str_only:
+                ov["build.timeout"] = str(100 + oid)
+                ov["please.numthreads"] = str(100 + oid)
+        elif c["override"]["single"] == "empty":
+            ov["build.lang"] = ""
+        if c["override"]["rep"] > 0:
+            for sec, key in _REP_OPTS:
+                ov["%s.%s" % (sec, key)] = ",".join("/r%d_%d" % (oid, j + 1) for j in range(c["override"]["rep"]))
+        o = _e2e_query(ctx, plz, root, c["profiles"], ov)
+        o["str_only"] = str_only
+        ctx.traces_validated += 1
+        _judge(ctx, c, o, defaults, "e2e")
+    ctx.extra["e2e_plz_query_config_cases"] = len(e2e_cases)
 
 
 @register("C39", claim=CLAIM)
